@@ -25,8 +25,7 @@ from . import geomgen as G
 Nat, Rec, Some, Raw = C.Nat, C.Rec, C.Some, C.Raw
 
 HOWS = {'inner': 'Inner', 'left': 'Left', 'right': 'Right'}
-ERR = {'suffix-equal': 1, 'name-clash': 2, 'empty-line': 3, 'merge-error': 4, 'key-error': 5}
-ERR_NAME = {v: k for k, v in ERR.items()}
+ERR_CLASS = {1: 'ValueError', 4: 'MergeError', 5: 'KeyError', 9: 'other'}
 
 
 # --------------------------------------------------------------------------
@@ -248,21 +247,40 @@ def bounds_term(b):
 
 
 def classify_exception(e):
+    """the exception *class* (messages are not part of the API): the code the kernel verdict
+    (Model/SjoinHarness.v) understands"""
     from pandas.errors import MergeError
-    msg = str(e)
     if isinstance(e, MergeError):
-        return 'merge-error'
+        return 4
     if isinstance(e, KeyError):
-        return 'key-error'
-    if isinstance(e, StopIteration):
-        return 'empty-line'
-    if isinstance(e, ValueError):
-        if 'must not be equal' in msg:
-            return 'suffix-equal'
-        if 'cannot be column names' in msg:
-            return 'name-clash'
-        if 'empty' in msg:
-            return 'empty-line'
+        return 5
+    if isinstance(e, (ValueError, StopIteration)):
+        return 1
+    return 9
+
+
+def excluded_input(how, lsuffix, rsuffix, lspec, lorder, rspec, rorder, index_left, index_right):
+    """inputs outside the property (coordinator's ruling): a MultiIndex with one level (F1), generated
+    index names shared by both sides (F2), a suffixed name that collides with another column (F3,
+    pandas raises MergeError today).  Stated on the public inputs only."""
+    if lsuffix == rsuffix:
+        return None            # promised: ValueError
+    for spec in (lspec, rspec):
+        if spec['index'][0] == 'multi' and len(spec['index'][1]) == 1:
+            return 'F1'
+    if set(index_left) & set(index_right):
+        return 'F2'
+    if how == 'right':
+        lside = index_left + [c for c in lorder if c != lspec['geom']]
+        rside = index_right + list(rorder)
+    else:
+        lside = index_left + list(lorder)
+        rside = index_right + [c for c in rorder if c != rspec['geom']]
+    both = set(lside) & set(rside)
+    renamed = [c + '_' + lsuffix for c in lside if c in both] + [c + '_' + rsuffix for c in rside if c in both]
+    names = [c for c in lside + rside if c not in both] + renamed
+    if len(set(names)) != len(names):
+        return 'F3'
     return None
 
 
@@ -275,9 +293,9 @@ def expected_renames(how, lsuffix, rsuffix, lspec, lorder, rspec, rorder, index_
     payload / id / geometry columns, and the index columns of the *other* side"""
     if how == 'right':
         lside = index_left + [c for c in lorder if c != lspec['geom']]
-        rside = ['_key_left', '_key_right'] + index_right + list(rorder)
+        rside = index_right + list(rorder)
     else:
-        lside = index_left + list(lorder) + ['_key_right']
+        lside = index_left + list(lorder)
         rside = index_right + [c for c in rorder if c != rspec['geom']]
     both = set(lside) & set(rside)
     m = {}
